@@ -3,6 +3,7 @@ package c10
 import (
 	"fmt"
 	"math"
+	"strings"
 
 	"github.com/go-text/typesetting/font"
 	ot "github.com/go-text/typesetting/font/opentype"
@@ -57,7 +58,12 @@ func (m *monitor) checkCoords(l *local, fi *faceInfo, rf *refs, st *setting, gc 
 		vals = append(vals, hc)
 		l.inc("cmp/normcoords/hb=" + agreeStr(ok))
 	}
-	if rf.ft != nil && (rf.ftOK || rf.ftElsewhere) {
+	if outsideAtDefault && rf.ft != nil {
+		// FreeType 2.12.1 is known to be wrong exactly here (+-1 instead of 0): it is not
+		// heard, HarfBuzz - the reference the statement names - decides alone
+		l.inc("ref/ft/skipped: normalized coordinates beyond an axis end that equals the default")
+	}
+	if rf.ft != nil && (rf.ftOK || rf.ftElsewhere) && !outsideAtDefault {
 		if bc, err := rf.ft.BlendCoords(len(gc)); err == nil {
 			fc := make([]int, len(bc))
 			ok := true
@@ -94,6 +100,7 @@ func (m *monitor) checkCoords(l *local, fi *faceInfo, rf *refs, st *setting, gc 
 			cls = "fvar-avar [exact negative half-way case k-0.5: HarfBuzz 6.0.0 rounds half up, library and newer HarfBuzz round half away from zero]"
 		}
 	}
+	v = hbDecides(v, who, true, cls)
 	m.record(l, fi, "normcoords", cls, v, who, func() (string, Witness) {
 		w := Witness{Font: fi.id, Quantity: "normcoords", Design: st.design, ViaSet: st.via, Values: map[string]string{"go": fmtInts(gc)}}
 		for _, o := range obs {
@@ -311,6 +318,7 @@ func (m *monitor) checkGlyph(l *local, fi *faceInfo, rf *refs, face *font.Face, 
 				cls += " [negative phantom-point advance: FreeType does not clamp to 0]"
 			}
 		}
+		v = hbDecides(v, who, isVar, cls)
 		m.record(l, fi, "hadvance", cls, v, who, func() (string, Witness) {
 			w := wit("hadvance")
 			w.Values["go"] = fmt.Sprint(g)
@@ -381,6 +389,7 @@ func (m *monitor) checkGlyph(l *local, fi *faceInfo, rf *refs, face *font.Face, 
 		if !isVar && v == vViolated {
 			v = vObserved // the statement names horizontal advances only for static faces
 		}
+		v = hbDecides(v, who, isVar, cls)
 		m.record(l, fi, "vadvance", cls, v, who, func() (string, Witness) {
 			w := wit("vadvance")
 			w.Values["go"] = fmt.Sprint(g)
@@ -597,6 +606,7 @@ func (m *monitor) checkGlyph(l *local, fi *faceInfo, rf *refs, face *font.Face, 
 					cls = "glyf [stored header box differs from the control box of the points; library and HarfBuzz read the header, FreeType and x/image recompute]"
 				}
 			}
+			v = hbDecides(v, who, isVar, cls)
 			m.record(l, fi, "extents", cls, v, who, func() (string, Witness) {
 				w := wit("extents")
 				w.Values["go"] = gb.String()
@@ -655,4 +665,15 @@ func (m *monitor) checkGlyph(l *local, fi *faceInfo, rf *refs, face *font.Face, 
 			"extents": fmt.Sprintf("%+v", gExt), "segments": gOut.nsegs(), "contours": len(gOut),
 			"references": fmt.Sprintf("hb=%v ft=%v ximage=%v raw=%v", hbHas, ftHas, xiHas, raw.ok)})
 	}
+}
+
+// hbDecides: for variable-font settings the statement names one reference, the shaper's
+// font functions. When HarfBuzz is the only reference heard for an observation and it
+// differs (and no documented skew class explains the difference), that is a violation,
+// not an inconclusive "single reference differs".
+func hbDecides(v verdict, who string, isVar bool, class string) verdict {
+	if isVar && v == vSingle && who == "hb" && !strings.Contains(class, "[") {
+		return vViolated
+	}
+	return v
 }
